@@ -62,7 +62,10 @@ def has_no_utc_offset(entered_input: str) -> EvaluatedFormatConstraint:
     if error_result is not None:
         return error_result
     original_time = date_time.time()  # type:ignore[union-attr]
-    utc_time = date_time.astimezone(tz=utc).time()  # type:ignore[union-attr]
+    try:
+        utc_time = date_time.astimezone(tz=utc).time()  # type:ignore[union-attr]
+    except OverflowError as overflow_error:  # e.g. 0001-01-01T00:00:00+01:00
+        return EvaluatedFormatConstraint(format_constraint_fulfilled=False, error_message=str(overflow_error))
     if utc_time == original_time:
         return EvaluatedFormatConstraint(format_constraint_fulfilled=True, error_message=None)
     error_message = f"The provided date time '{entered_input}' has a UTC offset of {utc_time}."
@@ -103,7 +106,11 @@ def is_xtag_limit(entered_input: str, division: Union[Literal["Strom"], Literal[
         xtag_evaluator = is_gastag_limit
     else:
         raise NotImplementedError(f"The division must either be 'Strom' or 'Gas': '{division}'")
-    if xtag_evaluator(date_time):  # type:ignore[arg-type]
+    try:
+        is_limit = xtag_evaluator(date_time)  # type:ignore[arg-type]
+    except OverflowError as overflow_error:  # e.g. 9999-12-31T23:59:59-01:00
+        return EvaluatedFormatConstraint(format_constraint_fulfilled=False, error_message=str(overflow_error))
+    if is_limit:
         return EvaluatedFormatConstraint(format_constraint_fulfilled=True, error_message=None)
     error_message = (
         f"The given datetime '{date_time.isoformat()}' is not the limit of a {division}tag"  # type:ignore[union-attr]
